@@ -103,7 +103,16 @@ type verifUnit struct {
 var verifStarted, verifCancelled int
 
 func (u *verifUnit) Start() error   { verifStarted++; u.UpdateBasicStatus(WorkStateSucceeded, "done", 0); return nil }
-func (u *verifUnit) Restart() error { return nil }
+func (u *verifUnit) Restart() error {
+	// like a command unit: a unit that never started is failed at restart
+	if err := u.Load(); err != nil {
+		return err
+	}
+	if st := u.Status().State; st == WorkStatePending {
+		u.UpdateBasicStatus(WorkStateFailed, "Pending at restart", 0)
+	}
+	return nil
+}
 func (u *verifUnit) Cancel() error  { verifCancelled++; return nil }
 
 func verifNewUnit(_ BaseWorkUnitForWorkUnit, w *Workceptor, unitID string, workType string) WorkUnit {
